@@ -306,6 +306,13 @@ def act_step(act):
         return {"op": "get", "log": act["log"]}
     if a == "getlogs":
         return {"op": "getlogs"}
+    if a == "env":
+        # environment steps of Witness.tla: restart on the same store / on the store in the release's format; a stored checkpoint as an
+        # earlier incarnation of the witness left it
+        k = act["kind"]
+        if k in ("restart", "upgrade"):
+            return {"op": "migrate", "cls": k}
+        return {"op": "restore", "log": act["log"], "cls": {"future": "future1h"}.get(k, k)}
     raise ValueError(act)
 
 
@@ -331,6 +338,8 @@ def runs_from_edges(edges, nwit, chunk=150, prefix="e"):
     n = 0
     for k, es in by_pre.items():
         pre = es[0]["pre"]
+        if any((not c_.get("none")) and c_.get("lines", 0) < 1 + nwit for c_ in pre.values()):
+            continue      # a state only an environment step reaches (fewer witness lines than this witness writes): covered by the walks
         setup = tofu_steps(pre, nwit)
         quiet = [e for e in es if e["act"].get("a") != "update" or e["act"].get("v") != "Accept"]
         loud = [e for e in es if e["act"].get("a") == "update" and e["act"].get("v") == "Accept"]
